@@ -279,7 +279,11 @@ func c02Phase(r *Run, prop string, withLedger bool) {
 
 // c02ExpireRecheck parks the expiry path just before it re-checks the deadline,
 // extends the TTL through the API, resumes, then changes the cost / deletes.
-func c02ExpireRecheck(r *Run, variant int) {
+func c02ExpireRecheck(r *Run, variant int) { expireRecheckScenario(r, variant, "C02") }
+
+// expireRecheckScenario serves C02 (accounting after the race) and C04 (the renewed entry must still be reclaimed
+// within a tick of its new deadline): each property's run reports only its own oracle.
+func expireRecheckScenario(r *Run, variant int, prop string) {
 	nl := &noteLog[int, int64]{}
 	c, err := theine.NewBuilder[int, int64](100).RemovalListener(nl.listener()).Build()
 	if err != nil {
@@ -315,6 +319,9 @@ func c02ExpireRecheck(r *Run, variant int) {
 	check := func(stage string) bool {
 		sn := st.VerifSnapshot()
 		issues := checkQuiescent(sn, c.EstimatedSize(), true)
+		if prop != "C02" {
+			return len(issues) == 0
+		}
 		for _, is := range issues {
 			r.Violate(is.Key+"/after-ttl-extension-raced-expiry", fmt.Sprintf("%s; %s: %s", desc, stage, is.What),
 				map[string]any{"stage": stage, "variant": variant, "snapshot": snapSummary(sn), "notes": fmt.Sprint(nl.snapshot())})
